@@ -49,11 +49,12 @@ structure EInv (w : World) : Prop where
   wp : ∀ c, ∀ p ∈ (w.chans c).wp, Reg w p.fiber p.schedId p.epoch
   tm : ∀ to ∈ w.timers, Reg w to.fiber to.schedId to.epoch
   pr : ∀ k f g, w.procs k = some (f, g) → Reg w f g (w.procEpoch k)
+  th : ∀ k f g, w.thr k = some (f, g) → Reg w f g (w.thrEpoch k)
   ls : ∀ f, (w.fibers f).listener ≠ none → (w.fibers f).listenEpoch = (w.fibers f).epoch
   lg : ∀ e ∈ w.log, e.task.regEpoch = e.epochAtRun
 
 theorem init_EInv : EInv init := by
-  refine ⟨?_, ?_, ?_, ?_, ?_, ?_, ?_⟩ <;> intros <;> simp_all [init]
+  refine ⟨?_, ?_, ?_, ?_, ?_, ?_, ?_, ?_⟩ <;> intros <;> simp_all [init]
 
 /-- every record of `w'` is a record of `w` or is current in `w'` -/
 theorem EInv.transfer {w w' : World} (h : EInv w) (ha : Adv w w')
@@ -63,11 +64,13 @@ theorem EInv.transfer {w w' : World} (h : EInv w) (ha : Adv w w')
     (htm : ∀ to ∈ w'.timers, to ∈ w.timers ∨ Reg w' to.fiber to.schedId to.epoch)
     (hpr : ∀ k f g, w'.procs k = some (f, g) →
         (w.procs k = some (f, g) ∧ w'.procEpoch k = w.procEpoch k) ∨ Reg w' f g (w'.procEpoch k))
+    (hth : ∀ k f g, w'.thr k = some (f, g) →
+        (w.thr k = some (f, g) ∧ w'.thrEpoch k = w.thrEpoch k) ∨ Reg w' f g (w'.thrEpoch k))
     (hls : ∀ f, (w'.fibers f).listener ≠ none →
         ((w.fibers f).listener ≠ none ∧ (w'.fibers f).listenEpoch = (w.fibers f).listenEpoch ∧
           (w'.fibers f).epoch = (w.fibers f).epoch) ∨ (w'.fibers f).listenEpoch = (w'.fibers f).epoch)
     (hlg : ∀ e ∈ w'.log, e ∈ w.log ∨ e.task.regEpoch = e.epochAtRun) : EInv w' := by
-  refine ⟨?_, ?_, ?_, ?_, ?_, ?_, ?_⟩
+  refine ⟨?_, ?_, ?_, ?_, ?_, ?_, ?_, ?_⟩
   · intro t ht; rcases hq t ht with h1 | h1
     · exact (h.q t h1).adv ha
     · exact h1
@@ -83,6 +86,9 @@ theorem EInv.transfer {w w' : World} (h : EInv w) (ha : Adv w w')
   · intro k f g hk; rcases hpr k f g hk with ⟨h1, h2⟩ | h1
     · rw [h2]; exact (h.pr k f g h1).adv ha
     · exact h1
+  · intro k f g hk; rcases hth k f g hk with ⟨h1, h2⟩ | h1
+    · rw [h2]; exact (h.th k f g h1).adv ha
+    · exact h1
   · intro f hf; rcases hls f hf with ⟨h1, h2, h3⟩ | h1
     · rw [h2, h3]; exact h.ls f h1
     · exact h1
@@ -92,13 +98,15 @@ theorem EInv.transfer {w w' : World} (h : EInv w) (ha : Adv w w')
 
 /-- a world that differs from `w` only in fields that carry no records -/
 theorem EInv.frame {w w' : World} (h : EInv w) (hf : w'.fibers = w.fibers) (hq : w'.queue = w.queue) (hc : w'.chans = w.chans)
-    (ht : w'.timers = w.timers) (hp : w'.procs = w.procs) (hpe : w'.procEpoch = w.procEpoch) (hl : w'.log = w.log) : EInv w' := by
-  refine h.transfer (Adv.of_fibers hf) ?_ ?_ ?_ ?_ ?_ ?_ ?_
+    (ht : w'.timers = w.timers) (hp : w'.procs = w.procs) (hpe : w'.procEpoch = w.procEpoch) (hl : w'.log = w.log)
+    (hth : w'.thr = w.thr := by rfl) (hthe : w'.thrEpoch = w.thrEpoch := by rfl) : EInv w' := by
+  refine h.transfer (Adv.of_fibers hf) ?_ ?_ ?_ ?_ ?_ ?_ ?_ ?_
   · intro t ht'; rw [hq] at ht'; exact Or.inl ht'
   · intro c p hp'; rw [hc] at hp'; exact Or.inl hp'
   · intro c p hp'; rw [hc] at hp'; exact Or.inl hp'
   · intro to hto; rw [ht] at hto; exact Or.inl hto
   · intro k f g hk; rw [hp] at hk; exact Or.inl ⟨hk, by rw [hpe]⟩
+  · intro k f g hk; rw [hth] at hk; exact Or.inl ⟨hk, by rw [hthe]⟩
   · intro f hf'; rw [hf] at hf' ⊢; exact Or.inl ⟨hf', rfl, rfl⟩
   · intro e he; rw [hl] at he; exact Or.inl he
 
@@ -107,7 +115,7 @@ theorem EInv.chans {w : World} (h : EInv w) (cs : Nat → Chan)
     (hrp : ∀ c, ∀ p ∈ (cs c).rp, p ∈ (w.chans c).rp ∨ Reg w p.fiber p.schedId p.epoch)
     (hwp : ∀ c, ∀ p ∈ (cs c).wp, p ∈ (w.chans c).wp ∨ Reg w p.fiber p.schedId p.epoch) : EInv { w with chans := cs } := by
   refine h.transfer (Adv.of_fibers rfl) (fun t ht => Or.inl ht) ?_ ?_ (fun to hto => Or.inl hto)
-    (fun k f g hk => Or.inl ⟨hk, rfl⟩) (fun f hf => Or.inl ⟨hf, rfl, rfl⟩) (fun e he => Or.inl he)
+    (fun k f g hk => Or.inl ⟨hk, rfl⟩) (fun k f g hk => Or.inl ⟨hk, rfl⟩) (fun f hf => Or.inl ⟨hf, rfl, rfl⟩) (fun e he => Or.inl he)
   · intro c p hp; exact hrp c p hp
   · intro c p hp; exact hwp c p hp
 
@@ -127,7 +135,7 @@ theorem schedule_E (cfg : Cfg) (hb : cfg.scheduleBumps = true) {w : World} (h : 
       · subst hg; simp [nextSid, hb]
       · simp [set_other _ _ _ _ hg]
     refine h.transfer hadv ?_ (fun c p hp => Or.inl hp) (fun c p hp => Or.inl hp) (fun to hto => Or.inl hto)
-      (fun k f' g hk => Or.inl ⟨hk, rfl⟩) ?_ (fun ev hev => Or.inl hev)
+      (fun k f' g hk => Or.inl ⟨hk, rfl⟩) (fun k f' g hk => Or.inl ⟨hk, rfl⟩) ?_ (fun ev hev => Or.inl hev)
     · intro t ht
       rcases List.mem_append.mp ht with ht | ht
       · exact Or.inl ht
@@ -170,7 +178,7 @@ theorem asyncEnd_E {w : World} (h : EInv w) (f : Nat) : EInv (asyncEnd w f) := b
       · subst hg; simp
       · simp [set_other _ _ _ _ hg]
     refine h.transfer hadv (fun t ht => Or.inl ht) (fun c p hp => Or.inl hp) (fun c p hp => Or.inl hp) (fun to hto => Or.inl hto)
-      (fun k f' g hk => Or.inl ⟨hk, rfl⟩) ?_ (fun ev hev => Or.inl hev)
+      (fun k f' g hk => Or.inl ⟨hk, rfl⟩) (fun k f' g hk => Or.inl ⟨hk, rfl⟩) ?_ (fun ev hev => Or.inl hev)
     intro g hg
     by_cases hgf : g = f
     · subst hgf; simp at hg
@@ -338,7 +346,7 @@ theorem chanClose_E (cfg : Cfg) (hc : cfg.allChecked = true) {w : World} (h : EI
 
 theorem addTimer_E (cfg : Cfg) {w : World} (h : EInv w) (f : Nat) (k : TKind) (d : Nat) : EInv (addTimer cfg w f k d) := by
   refine h.transfer (Adv.of_fibers rfl) (fun t ht => Or.inl ht) (fun c p hp => Or.inl hp) (fun c p hp => Or.inl hp) ?_
-    (fun k f' g hk => Or.inl ⟨hk, rfl⟩) (fun f hf => Or.inl ⟨hf, rfl, rfl⟩) (fun e he => Or.inl he)
+    (fun k f' g hk => Or.inl ⟨hk, rfl⟩) (fun k f' g hk => Or.inl ⟨hk, rfl⟩) (fun f hf => Or.inl ⟨hf, rfl, rfl⟩) (fun e he => Or.inl he)
   intro to hto
   simp only [addTimer] at hto
   rcases (mem_insertTimer _ _ _).mp hto with rfl | hto
@@ -385,13 +393,14 @@ theorem timerPhase_E (cfg : Cfg) (hc : cfg.allChecked = true) (fuel : Nat) {w : 
         apply ih
         have h1 : EInv { w with timers := rest } := by
           refine h.transfer (Adv.of_fibers rfl) (fun t ht => Or.inl ht) (fun c p hp => Or.inl hp) (fun c p hp => Or.inl hp) ?_
-            (fun k f' g hk => Or.inl ⟨hk, rfl⟩) (fun f hf => Or.inl ⟨hf, rfl, rfl⟩) (fun e he => Or.inl he)
+            (fun k f' g hk => Or.inl ⟨hk, rfl⟩) (fun k f' g hk => Or.inl ⟨hk, rfl⟩) (fun f hf => Or.inl ⟨hf, rfl, rfl⟩) (fun e he => Or.inl he)
           intro x hx; exact Or.inl (by rw [hts]; simp [hx])
         exact fireTimer_E cfg hc h1 to (h.tm to (by rw [hts]; simp))
       · rw [if_neg hw]; exact h
 
 theorem asyncEnd_frame2 (w : World) (f : Nat) :
     (asyncEnd w f).chans = w.chans ∧ (asyncEnd w f).procs = w.procs ∧ (asyncEnd w f).procEpoch = w.procEpoch ∧
+    (asyncEnd w f).thr = w.thr ∧ (asyncEnd w f).thrEpoch = w.thrEpoch ∧
     (∀ g, ((asyncEnd w f).fibers g).epoch = (w.fibers g).epoch ∧ ((asyncEnd w f).fibers g).listenEpoch = (w.fibers g).listenEpoch) ∧
     (∀ g, g ≠ f → (asyncEnd w f).fibers g = w.fibers g) := by
   unfold asyncEnd
@@ -399,7 +408,7 @@ theorem asyncEnd_frame2 (w : World) (f : Nat) :
   | none => simp
   | some p =>
     obtain ⟨s, r⟩ := p
-    refine ⟨rfl, rfl, rfl, ?_, ?_⟩
+    refine ⟨rfl, rfl, rfl, rfl, rfl, ?_, ?_⟩
     · intro g
       by_cases hg : g = f
       · subst hg; simp
@@ -420,11 +429,13 @@ theorem runTask_exec_E {w : World} (h : EInv w) {t : Task} {q : List Task} (hq :
   have hWp : W.procs = w.procs := by rw [← hW]
   have hWpe : W.procEpoch = w.procEpoch := by rw [← hW]
   have hWl : W.log = w.log := by rw [← hW]
+  have hWth : W.thr = w.thr := by rw [← hW]
+  have hWthe : W.thrEpoch = w.thrEpoch := by rw [← hW]
   have hWf : ∀ g, g ≠ t.fiber → W.fibers g = w.fibers g := by
     intro g hg; rw [← hW]; simp [set_other _ _ _ _ hg]
   have hWs : (W.fibers t.fiber).schedId = (w.fibers t.fiber).schedId + 1 := by rw [← hW]; simp
   obtain ⟨aq, al, atm, -, asid⟩ := asyncEnd_frame W t.fiber
-  obtain ⟨ac, ap, ape, aep, aoth⟩ := asyncEnd_frame2 W t.fiber
+  obtain ⟨ac, ap, ape, ath, athe, aep, aoth⟩ := asyncEnd_frame2 W t.fiber
   have hadv : Adv w (asyncEnd W t.fiber) := by
     intro g
     by_cases hg : g = t.fiber
@@ -433,19 +444,20 @@ theorem runTask_exec_E {w : World} (h : EInv w) {t : Task} {q : List Task} (hq :
       exact ⟨Nat.le_succ _, fun hh => absurd hh (by omega)⟩
     · rw [aoth g hg, hWf g hg]; exact ⟨Nat.le_refl _, fun _ => rfl⟩
   have E1 : EInv (asyncEnd W t.fiber) := by
-    refine h.transfer hadv ?_ ?_ ?_ ?_ ?_ ?_ ?_
+    refine h.transfer hadv ?_ ?_ ?_ ?_ ?_ ?_ ?_ ?_
     · intro x hx; rw [aq, hWq] at hx; exact Or.inl (by rw [hq]; simp [hx])
     · intro c p hp; rw [ac, hWc] at hp; exact Or.inl hp
     · intro c p hp; rw [ac, hWc] at hp; exact Or.inl hp
     · intro to hto; rw [atm, hWt] at hto; exact Or.inl hto
     · intro k f' g hk; rw [ap, hWp] at hk; exact Or.inl ⟨hk, by rw [ape, hWpe]⟩
+    · intro k f' g hk; rw [ath, hWth] at hk; exact Or.inl ⟨hk, by rw [athe, hWthe]⟩
     · intro g hg
       by_cases hgf : g = t.fiber
       · subst hgf; exact absurd (asyncEnd_listener W t.fiber) hg
       · rw [aoth g hgf, hWf g hgf] at hg ⊢; exact Or.inl ⟨hg, rfl, rfl⟩
     · intro e he; rw [al, hWl] at he; exact Or.inl he
   refine E1.transfer (Adv.of_fibers rfl) (fun x hx => Or.inl hx) (fun c p hp => Or.inl hp) (fun c p hp => Or.inl hp)
-    (fun to hto => Or.inl hto) (fun k f' g hk => Or.inl ⟨hk, rfl⟩) (fun g hg => Or.inl ⟨hg, rfl, rfl⟩) ?_
+    (fun to hto => Or.inl hto) (fun k f' g hk => Or.inl ⟨hk, rfl⟩) (fun k f' g hk => Or.inl ⟨hk, rfl⟩) (fun g hg => Or.inl ⟨hg, rfl, rfl⟩) ?_
   intro e he
   rcases List.mem_cons.mp he with rfl | he
   · right; exact ht.2 heq
@@ -472,7 +484,7 @@ theorem runTask_E (cfg : Cfg) (hc : cfg.allChecked = true) {w : World} (h : EInv
         · subst hg; simp
         · simp [set_other _ _ _ _ hg]
       refine h.transfer hadv (fun x hx => Or.inl (by rw [hq]; simp [hx])) (fun c p hp => Or.inl hp) (fun c p hp => Or.inl hp)
-        (fun to hto => Or.inl hto) (fun k f' g hk => Or.inl ⟨hk, rfl⟩) ?_ (fun e he => Or.inl he)
+        (fun to hto => Or.inl hto) (fun k f' g hk => Or.inl ⟨hk, rfl⟩) (fun k f' g hk => Or.inl ⟨hk, rfl⟩) ?_ (fun e he => Or.inl he)
       intro g hg
       by_cases hgf : g = t.fiber
       · subst hgf
@@ -492,7 +504,7 @@ theorem setFiber_E {w : World} (h : EInv w) (f : Nat) (fb : Fiber) (h1 : fb.sche
     · subst hg; simp [h1, h2]
     · simp [set_other _ _ _ _ hg]
   refine h.transfer hadv (fun t ht => Or.inl ht) (fun c p hp => Or.inl hp) (fun c p hp => Or.inl hp) (fun to hto => Or.inl hto)
-    (fun k f' g hk => Or.inl ⟨hk, rfl⟩) ?_ (fun e he => Or.inl he)
+    (fun k f' g hk => Or.inl ⟨hk, rfl⟩) (fun k f' g hk => Or.inl ⟨hk, rfl⟩) ?_ (fun e he => Or.inl he)
   intro g hg
   by_cases hgf : g = f
   · subst hgf
@@ -578,7 +590,7 @@ theorem step_E (cfg : Cfg) (hc : cfg.allChecked = true) {w : World} (h : EInv w)
   | procWait f k =>
     simp only [step, procWait]
     refine h.transfer (Adv.of_fibers rfl) (fun t ht => Or.inl ht) (fun c p hp => Or.inl hp) (fun c p hp => Or.inl hp)
-      (fun to hto => Or.inl hto) ?_ (fun f hf => Or.inl ⟨hf, rfl, rfl⟩) (fun e he => Or.inl he)
+      (fun to hto => Or.inl hto) ?_ (fun k f g hk => Or.inl ⟨hk, rfl⟩) (fun f hf => Or.inl ⟨hf, rfl, rfl⟩) (fun e he => Or.inl he)
     intro k' f' g hk
     by_cases hkk : k' = k
     · subst hkk
@@ -598,7 +610,7 @@ theorem step_E (cfg : Cfg) (hc : cfg.allChecked = true) {w : World} (h : EInv w)
       have hreg := h.pr k f g hfg
       have h1 : EInv { w with procs := set w.procs k none } := by
         refine h.transfer (Adv.of_fibers rfl) (fun t ht => Or.inl ht) (fun c p hp => Or.inl hp) (fun c p hp => Or.inl hp)
-          (fun to hto => Or.inl hto) ?_ (fun f hf => Or.inl ⟨hf, rfl, rfl⟩) (fun e he => Or.inl he)
+          (fun to hto => Or.inl hto) ?_ (fun k f g hk => Or.inl ⟨hk, rfl⟩) (fun f hf => Or.inl ⟨hf, rfl, rfl⟩) (fun e he => Or.inl he)
         intro k' f' g' hk
         by_cases hkk : k' = k
         · subst hkk; simp at hk
@@ -620,6 +632,40 @@ theorem step_E (cfg : Cfg) (hc : cfg.allChecked = true) {w : World} (h : EInv w)
         · split <;> exact h1
         · exact h1
   | procFlag k x => exact h.frame rfl rfl rfl rfl rfl rfl rfl
+  | thrWait f k =>
+    simp only [step, thrWait]
+    refine h.transfer (Adv.of_fibers rfl) (fun t ht => Or.inl ht) (fun c p hp => Or.inl hp) (fun c p hp => Or.inl hp)
+      (fun to hto => Or.inl hto) (fun k f g hk => Or.inl ⟨hk, rfl⟩) ?_ (fun f hf => Or.inl ⟨hf, rfl, rfl⟩) (fun e he => Or.inl he)
+    intro k' f' g hk
+    by_cases hkk : k' = k
+    · subst hkk
+      simp only [set_same, Option.some.injEq, Prod.mk.injEq] at hk ⊢
+      right
+      rw [← hk.1, ← hk.2]
+      exact Reg.cur w f
+    · simp only [set_other _ _ _ _ hkk] at hk ⊢
+      exact Or.inl ⟨hk, trivial⟩
+  | thrDone k v e =>
+    have htc := allChecked_threadCheck hc
+    simp only [step, thrDone]
+    split
+    · exact h
+    · rename_i f g hfg
+      have hreg := h.th k f g hfg
+      have h1 : EInv { w with thr := set w.thr k none } := by
+        refine h.transfer (Adv.of_fibers rfl) (fun t ht => Or.inl ht) (fun c p hp => Or.inl hp) (fun c p hp => Or.inl hp)
+          (fun to hto => Or.inl hto) (fun k f g hk => Or.inl ⟨hk, rfl⟩) ?_ (fun f hf => Or.inl ⟨hf, rfl, rfl⟩) (fun e he => Or.inl he)
+        intro k' f' g' hk
+        by_cases hkk : k' = k
+        · subst hkk; simp at hk
+        · simp only [set_other _ _ _ _ hkk] at hk; exact Or.inl ⟨hk, rfl⟩
+      rw [htc]
+      by_cases hd : (!(w.fibers f).dead && (!true || live w f g)) = true
+      · rw [if_pos hd]
+        have hl : g = (w.fibers f).schedId := by
+          simp [live] at hd; exact hd.2.symm
+        exact schedule_E cfg hb h1 _ _ _ _ _ _ (hreg.2 hl)
+      · rw [if_neg hd]; exact h1
   | childEnter f => exact setFiber_E h f _ rfl rfl (fun hl => h.ls f hl)
   | childLeave f =>
     have h1 := setFiber_E h f { w.fibers f with depth := (w.fibers f).depth - 1 } rfl rfl (fun hl => h.ls f hl)
